@@ -45,4 +45,4 @@ def handleC19 (j : Json) : Except String Verdict := do
       | none => pure ()
   return .ok
 
-def main : IO Unit := runDriver handleC19
+def main : IO Unit := D2V.Drv.Lay.runSanitized handleC19
